@@ -114,6 +114,10 @@ def task_container_charge(pr, repo):
             # residue_type/exclude flag: so that a selection through use_in_calculations() can be executed too
             g = mkgroup(repo, 'g%d' % i, titratable=B('t%d' % i), residue_type='CYS', exclude_cys_from_results=False)
             g.attrs['__idx__'] = i
+            # groups 0 and 2 print the same label (same residue number and chain, different insertion code): still two groups
+            g.attrs['label'] = 'LYS 116 A' if i != 1 else 'ASP  25 A'
+            g.attrs['atom'] = record('atom%d' % i, repo.cls('propka.atom.Atom'), type='atom', res_num=116 if i != 1 else 25, chain_id='A',
+                                     icode=' A'[i // 2])
             gs.append(g)
         conf = record('conf', CCls, groups=gs)
         r = ex.call_function(fi, [None, R('ph')], self_obj=conf)
@@ -328,8 +332,10 @@ def task_section(pr, repo):
 
 
 def run(pr, repo):
+    from . import C10
+    # the profile is reported AT the grid values min + i*step that make_grid yields (its contract: C10-MG)
     pr.parallel([(task_group_charge, ()), (task_container_charge, ()), (task_profile, ()), (task_pi, ()),
-                 (task_section, ())])
+                 (task_section, ()), (C10.task_grid, ())])
     pr.assumptions.append('|q*(pK-pH)| small enough that 10**x does not overflow (x < 308)')
     bounded(pr)
 
